@@ -122,23 +122,25 @@ Lemma reg_runtime_ok s caller rt :
   (r_gov rt = 1 \/ r_gov rt = 2) /\ (r_kind rt = 1 \/ r_kind rt = 2) /\
   match any_runtime s (r_id rt) with
   | Some old => rt_acct old = Some caller /\ r_kind old = r_kind rt /\
-                (r_gov old = r_gov rt \/ (r_gov old = 1 /\ r_gov rt = 2))
+                (r_gov old = r_gov rt \/ (r_gov old = 1 /\ r_gov rt = 2)) /\
+                km_changed (r_km old) (r_km rt) = false
   | None => rt_acct rt = Some caller
   end.
 Proof.
   unfold reg_runtime_check. intros H. if_ok H.
-  apply negb_false_iff in E1, E3.
-  apply orb_true_iff in E1, E3.
+  apply negb_false_iff in E3, E5.
+  apply orb_true_iff in E3, E5.
+  split; [destruct E5 as [X|X]; apply N.eqb_eq in X; auto|].
   split; [destruct E3 as [X|X]; apply N.eqb_eq in X; auto|].
-  split; [destruct E1 as [X|X]; apply N.eqb_eq in X; auto|].
   unfold rt_update_check, rt_signer_check in H.
   destruct (any_runtime s (r_id rt)) as [old|].
   - destruct (negb (r_kind old =? r_kind rt)) eqn:K; [discriminate|].
+    destruct (km_changed (r_km old) (r_km rt)) eqn:KM; [discriminate|].
     destruct (negb (r_gov old =? r_gov rt) && negb ((r_gov old =? 1) && (r_gov rt =? 2))) eqn:G; [discriminate|].
     destruct (rt_acct old) as [a|]; [|discriminate].
     destruct (caller =? a) eqn:C; [|destruct (r_gov old =? 1); discriminate].
     apply N.eqb_eq in C. subst a. apply negb_false_iff in K. apply N.eqb_eq in K.
-    split; [reflexivity|split; [exact K|]].
+    split; [reflexivity|split; [exact K|split; [|reflexivity]]].
     apply andb_false_iff in G as [G|G]; apply negb_false_iff in G.
     + left. apply N.eqb_eq. exact G.
     + right. apply andb_true_iff in G as [G1 G2]. apply N.eqb_eq in G1, G2. auto.
@@ -325,7 +327,8 @@ Section RtAuth.
       (r_gov rt = 1 \/ r_gov rt = 2) /\
       match any_runtime s r with
       | Some old => rt_acct old = Some caller /\ r_kind old = r_kind rt /\
-                    (r_gov old = r_gov rt \/ (r_gov old = 1 /\ r_gov rt = 2))
+                    (r_gov old = r_gov rt \/ (r_gov old = 1 /\ r_gov rt = 2)) /\
+                    km_changed (r_km old) (r_km rt) = false
       | None => rt_acct rt = Some caller
       end.
   Proof.
